@@ -89,6 +89,7 @@ fn main() {
         "specdump" => checks::specdump(&args),
         "bcdump" => checks::bcdump(&args),
         "c17" => checks::c17(&args),
+        "mdiff" => checks::mdiff(&args),
         "hunt" => checks::hunt(&args),
         #[cfg(not(miri))]
         "c13" => c13::c13(&args),
